@@ -105,7 +105,20 @@ func H_C14_avg() {
 // by branches shorter than the threshold.
 func H_C14_cut() {
 	n := sxParam("n", 4)
-	t := genTree(n, 2, false)
+	var t *tree.Tree
+	if sxParam("stem", 0) == 1 {
+		// a named root of degree one above the tree ("((t0,t1):l)t2;"): gotree
+		// counts such a root among the tips, so it belongs to the partition
+		s := genShape(n, false)
+		root := rootShape(s, sxChoose("rooted", 2) == 1)
+		top := s.addNode(n)
+		s.link(top, root)
+		t = buildTree(s, top)
+		t.Root().SetName(tipName(n))
+		n++
+	} else {
+		t = genTree(n, 2, false)
+	}
 	// lenmode 2: a branch may have no length; the code documents nothing else
 	// than the numeric test `length < threshold`, with -1 standing for "absent"
 	decorate(t, sxParam("lenmode", lenAll), supNone)
